@@ -133,7 +133,7 @@ namespace Pistache::Tcp
 
     Async::Promise<ssize_t> Peer::send(const RawBuffer& buffer, int flags)
     {
-        return transport()->asyncWrite(fd_, buffer, flags);
+        return transport()->asyncWrite(fd_, buffer, flags, id_);
     }
 
     std::ostream& operator<<(std::ostream& os, Peer& peer)
